@@ -9,6 +9,24 @@ ROOT = pathlib.Path(__file__).resolve().parent.parent
 
 # id -> (technique, level text, level_note, design_ref)
 CHECKS = {
+    "C16": (
+        "exhaustive differential against range(n) semantics + output-count oracle from generator parameters on builder-returned handles",
+        "All ints and positive-step slices in a box around [-n, n] for n = 0..6 (quick) / 0..9 (thorough) are applied to real handles and "
+        "compared with Python range(n) semantics under the two stated licences; thousands of builder scenarios (every add/insert/call/load "
+        "API and every container builder, incl. row-polymorphic calls) check that the returned handle enumerates exactly the outputs the "
+        "generator's parameters dictate.",
+        "Trusted: the expected output counts written in the scenario table. Negative indexing on unknown-count handles not asserted.",
+        "DESIGN.md §3 C16",
+    ),
+    "C14": (
+        "reference-function monitor: JSON-level inhabits(value,type) from constant.rs + independent type_of on generator descriptors",
+        "Generated well-typed value expressions (general sums and every sugar helper, std int/float/string/array/list/static-array "
+        "constants, function values; nesting to depth 3/5) are built with the real constructors; the serialized form must inhabit the "
+        "reported type under a JSON-level re-implementation of the Rust rules, the reported type must equal the descriptor's, helper tags "
+        "must be the documented ones, collections must embed each element completely, and Const/LoadConst from DfBase.load must agree.",
+        "Trusted: vf/oracles/wire.py (inhabits, canonical types), vf/gen/values.py type_of. A negative self-test of the oracle runs first.",
+        "DESIGN.md §3 C14",
+    ),
     "C19": (
         "reference-model monitor (replay entries in order) on generated shots / multi-shot results",
         "Every generated shot and multi-shot result (interleaved indexed/whole writes, bools, non-bits, look-alike tags, "
